@@ -108,11 +108,14 @@ def gen_case(seed: int, tier: str, index: int) -> Dict[str, Any]:
         # tuning knob: after how long the polling caller is told "took too long to connect" (shipped 45 s); the handshake itself goes on
         # for as long as every step stays inside its own retry budget, so long loss patterns run past that moment
         long_pattern = rng.random() < 0.3
+        deep = False
         if long_pattern:
-            cfg["consts"] = {"CONNECTION_TIMEOUT_IN_SECONDS": rng.choice([45, 10, 3])}
+            # (mostly a small limit, so that a handful of lost attempts already runs past it; now and then the shipped 45 s with deep patterns)
+            deep = rng.random() < 0.12
+            cfg["consts"] = {"CONNECTION_TIMEOUT_IN_SECONDS": 45 if deep else rng.choice([10, 3, 3])}
             cfg["long_pattern"] = True
         for verb_req, verb_rep in (("AVERS", "SVERS"), ("CURCH", "CHCUR"), ("SFILE", "FILES")):
-            k = rng.choice([0, 0, 1, 2, 3]) if not long_pattern else rng.choice([0, 2, 3, budget - 1])
+            k = rng.choice([0, 0, 1, 2, 3]) if not long_pattern else (rng.choice([0, 2, 3, budget - 1]) if deep else rng.choice([1, 2, 3, 3]))
             k = min(k, budget - 1)
             for _ in range(k):
                 if rng.random() < 0.5:
